@@ -2,6 +2,7 @@ SPECIFICATION FairSpec
 CONSTANTS
   MaxCalls = 2
   MaxFrames = 3
+  MaxReqs = 1
   DeleteOnLookup = TRUE
   Record = FALSE
 INVARIANTS TypeOK NeverHangs OneAnswer
